@@ -9,6 +9,7 @@ import (
 	"strconv"
 	"strings"
 	"time"
+	"unicode/utf8"
 
 	"github.com/foxboron/go-uefi/efi/attributes"
 	"github.com/foxboron/go-uefi/efi/signature"
@@ -317,6 +318,17 @@ func c06CheckUpdate(c *Ctx, cs Case, tz, where string, u c06Upd, f []string) {
 		hx(payload), hx(cert.Raw), hx(cert.RawIssuer), cert.SerialNumber.String(), hx([]byte(si.AuthenticatedAttributes.SigningTime.Format("060102150405Z0700"))), hx(si.EncryptedDigest))
 	if !strings.HasPrefix(m, "ok "+hx(out)+" buf="+hx(want.Bytes())) {
 		c.Fail(Failure{Kind: "tie", What: "SignEFIVariable: the Lean model does not reproduce the output / signed buffer byte for byte", Case: cs, Model: clip(m), Go: clip(hx(out))})
+	}
+	// ---- the code TRANSLATED from the Go source (Gen.lean: signature.SignEFIVariable) against the real library ----
+	// given the clock value and the bare SignedData observed above, the translated function must return these very
+	// bytes, and the buffer it hands to SignPKCS7 must be the buffer that the independent verifiers accepted
+	if c.GenDrv != nil && utf8.Valid(name) {
+		g := c.GenDrv.Ask("gen.varsign", hx(name), hx(guid), fmt.Sprint(attrs), hx(tm), hx(payload), hx(sd))
+		c.genTies++
+		c.notes["translated_code_ties"] = c.genTies
+		if g != "ok "+hx(out)+" buf="+hx(want.Bytes()) {
+			c.Fail(Failure{Kind: "tie", What: where + "SignEFIVariable: the code translated from the Go source (Gen.lean) does not reproduce the library's output / the signed buffer byte for byte", Case: cs, Model: "translated: " + clip(g), Go: clip("ok " + hx(out) + " buf=" + hx(want.Bytes()))})
+		}
 	}
 	_ = util.SizeofEFIGUID
 }
